@@ -10,6 +10,7 @@ import SlacModel.Optimizer
 import SlacModel.Registry
 import SlacModel.Generated.Builtins
 import SlacProofs.OrderSafe
+import SlacModel.DebugFmt
 open Slac Codec
 
 namespace Script
@@ -19,7 +20,8 @@ def marker : Str := ['\x00', 'u', 'n', 'm']
 def stdlibEnv (cm : Stdlib.CaseMap) (off : Nat) : StaticEnv Float :=
   Generated.builtins.foldl (fun s row =>
     let nm := String.ofList row.name
-    let run : List V → Except NativeError V := match Registry.builtin (N := Float) cm off nm with
+    let reg : Option (Registry.F Float) := if nm == "str" then some (Registry.tot DebugFmt.strF) else Registry.builtin (N := Float) cm off nm
+    let run : List V → Except NativeError V := match reg with
       | some f => fun args =>
         -- sort/max/min on collections outside the Safe ordering domain: Rust leaves the result unspecified (known finding)
         if (nm == "sort" || nm == "max" || nm == "min") && !Order.safeB (Stdlib.smartVec args) then .error (.custom marker) else
